@@ -101,10 +101,26 @@ def dyndep_text(g, dd):
 
 def true_reads(g, e, phony_outs):
     """Files whose content the command of e reads (order matters for the content hash): declared explicit and
-    implicit inputs, dyndep-declared implicit inputs, hidden reads. Names that are only phony aliases are not files."""
+    implicit inputs, dyndep-declared implicit inputs, hidden reads. Names that are only phony aliases are not files; an
+    alias among the inputs stands for the (non order-only) files it groups, transitively."""
     seen = []
-    for r in e['exp'] + e['imp'] + dd_inputs(g, e) + e.get('hidden', []):
-        if r in phony_outs or r in seen:
+    prod = None
+    todo = list(e['exp'] + e['imp'] + dd_inputs(g, e) + e.get('hidden', []))
+    visited = set()
+    while todo:
+        r = todo.pop(0)
+        if r in phony_outs:
+            # an alias named as a (non order-only) input stands for the files behind it: `build out: cc src | hdrs` reads
+            # the headers that `build hdrs: phony gen.h` groups
+            if r not in visited:
+                visited.add(r)
+                if prod is None:
+                    prod = producer_map(g)
+                pe = prod.get(r)
+                if pe is not None:
+                    todo = list(pe['exp'] + pe['imp']) + todo
+            continue
+        if r in seen:
             continue
         seen.append(r)
     return seen
